@@ -3,6 +3,7 @@ from . import _stream as S
 
 PROP = "C08"
 LEVEL = "exploration"
+BLOCK = 32   # neighbouring configurations share a worker process
 RULE = ("all ten classes, grid + seeded random, all permitted passes, observer reads interleaved; after every action schedule.n / r / max_n are compared with the executor (n only while a forward state is defined); class invariant contract active; non-trivial = n >= 2 and >= 1 load; distinct = distinct (class, parameters, passes)")
 REQUIRED = ["C08.n_matches_forward", "C08.r_matches_reversed", "C08.max_n_true", "C08.max_n_unknown", "C08.initial_state", "contract.schedule_invariant"]
 ASSUMPTIONS = ["executor semantics follow tests/test_validity.py",
